@@ -43,6 +43,8 @@ AKinds == <<"text", "uri", "highlight", "square", "note", "underline", "line", "
 Uris == << <<104, 116, 116, 112, 58, 47, 47, 101, 46, 120, 47, 97, 40, 98, 41, 63, 113, 61, 49>>, <<109, 97, 105, 108, 116, 111, 58, 97, 64, 98>>, <<120, 92, 121, 41>>, <<35, 37, 47>> >>
 AsciiNames == << <<89, 101, 115>>, <<79, 110, 32, 105, 116, 35, 47>>, <<65, 32, 66>>, <<67, 40, 49, 41>>, <<120, 37, 121>>, <<91, 122, 93>>, <<79, 110>> >>
 FNames == << <<102>>, <<97, 32, 98>>, <<40, 112, 41>>, <<233, 252>>, <<20013>>, <<110, 35, 49, 47, 50>>, <<120, 92, 121>>, <<90, 128512>> >>
+\* texts a field is filled with after assembly (WinAnsi repertoire: the appearance is drawn with a standard font)
+Fills == << <<110, 101, 119>>, <<40, 118, 41, 32, 233, 92>>, <<8364, 32, 8226>>, <<>>, <<65, 255, 66>>, [x \in 1..20 |-> 96 + x] >>
 ARect(j) == LET x == 10 + (j % 7) * 3  y == 20 + (j % 5) * 11 IN <<x, y, x + 40 + (j % 3) * 40, y + 12 + (j % 4)>>
 StrAt(j) == Strs[(j % Len(Strs)) + 1]
 AnnotOf(j) ==
@@ -57,11 +59,15 @@ FKinds == <<"text", "check", "radio", "combo", "list", "push">>
 FieldOf(i, j) ==
   LET k == FKinds[(j % 6) + 1]  h == j \div 6
       base == [id |-> i, k |-> k, name |-> FNames[(h % Len(FNames)) + 1] \o <<48 + i>>] IN
-  CASE k = "text" -> IF h % 4 = 3 THEN base ELSE base @@ [value |-> StrAt(h)]
+  CASE k = "text" -> CASE h % 4 = 3 -> base
+                          [] h % 4 = 1 -> base @@ [value |-> StrAt(h), fill |-> Fills[((h \div 4) % Len(Fills)) + 1]]
+                          [] h % 4 = 2 -> base @@ [fill |-> Fills[((h \div 4 + 3) % Len(Fills)) + 1]]
+                          [] OTHER -> base @@ [value |-> StrAt(h)]
     [] k = "check" -> base @@ [value |-> AsciiNames[(h % Len(AsciiNames)) + 1], on |-> h % 2 = 0]
     [] k = "radio" -> LET o == <<AsciiNames[(h % Len(AsciiNames)) + 1], AsciiNames[((h + 1) % Len(AsciiNames)) + 1]>> IN
                       IF h % 3 = 2 THEN base @@ [options |-> o] ELSE base @@ [options |-> o, selected |-> h % 2]
-    [] k = "combo" -> LET o == <<StrAt(h), StrAt(h + 3), <<111, 112, 116>> >> IN IF h % 3 = 0 THEN base @@ [options |-> o] ELSE base @@ [options |-> o, value |-> o[(h % 3)]]
+    [] k = "combo" -> LET o == <<StrAt(h), StrAt(h + 3), <<111, 112, 116>> >> IN
+                      IF h % 3 = 0 THEN base @@ [options |-> o, fill |-> o[3]] ELSE IF h % 3 = 1 THEN base @@ [options |-> o, value |-> o[1], fill |-> o[3]] ELSE base @@ [options |-> o, value |-> o[2]]
     [] k = "list" -> base @@ [options |-> <<StrAt(h + 1), <<111>> >>]
     [] OTHER -> base
 DocX(k) ==
